@@ -783,9 +783,9 @@ func init() {
 		Random: func(tier string) int { return map[string]int{"quick": 4000, "thorough": 300000}[tier] },
 		Run:    runC03,
 		Level:  "exploration",
-		Rule: "random compositions source > 0-4 stages > sink over the real combinators: sources inject (any partition incl. empty batches, any arrival permutation), IBatchOver, Pool and Concat of 2-3 streams (empty streams included), ReadSequencesBatchFromFiles with 1-3 concurrent readers, PairTo; stages SortBatches, Rebatch, FilterEmpty, MakeIWorker (tag / drop), MakeISliceWorker, FilterOn, FilterAnd, IFragments, Pipe/Pipeline, CompleteFileIterator, IMergeSequenceBatch, each with 1-4 workers; sinks collect, DivideOn, Distribute (consumer per News key), Load, Count; dense yields in obiiter; oracle = list model of every combinator (exactly-once, order when order-preserving, batch numbers 0..m-1, termination). distinct = distinct (set and order of combinators, schedule signature); non-trivial = at least one step with >=2 runnable tasks",
-		Real: []string{"every obiiter combinator named in the rule", "obiformats.ReadSequencesBatchFromFiles", "obiseq workers, classifiers, Subsequence, Merge, pairing", "iterator termination protocol (Add/Done/WaitAndClose, RegisterAPipe/WaitForLastPipe)"},
-		Stub: []string{"per-file readers of ReadSequencesBatchFromFiles (harness injectors)", "upstream producers (harness injector tasks)", "sync primitives and scheduler (simrt)"},
+		Rule:   "random compositions source > 0-4 stages > sink over the real combinators: sources inject (any partition incl. empty batches, any arrival permutation), IBatchOver, Pool and Concat of 2-3 streams (empty streams included), ReadSequencesBatchFromFiles with 1-3 concurrent readers, PairTo; stages SortBatches, Rebatch, FilterEmpty, MakeIWorker (tag / drop), MakeISliceWorker, FilterOn, FilterAnd, IFragments, Pipe/Pipeline, CompleteFileIterator, IMergeSequenceBatch, each with 1-4 workers; sinks collect, DivideOn, Distribute (consumer per News key), Load, Count; dense yields in obiiter; oracle = list model of every combinator (exactly-once, order when order-preserving, batch numbers 0..m-1, termination). distinct = distinct (set and order of combinators, schedule signature); non-trivial = at least one step with >=2 runnable tasks",
+		Real:   []string{"every obiiter combinator named in the rule", "obiformats.ReadSequencesBatchFromFiles", "obiseq workers, classifiers, Subsequence, Merge, pairing", "iterator termination protocol (Add/Done/WaitAndClose, RegisterAPipe/WaitForLastPipe)"},
+		Stub:   []string{"per-file readers of ReadSequencesBatchFromFiles (harness injectors)", "upstream producers (harness injector tasks)", "sync primitives and scheduler (simrt)"},
 	})
 }
 
